@@ -497,3 +497,57 @@ Proof.
     match type of H with (if ?c then _ else _) = _ => destruct c; [|discriminate] end. injection H as <-.
     unfold PL. cbn. intro Ht. destruct (HP Ht) as [_ Heq]. split; [now right|exact Heq].
 Qed.
+
+Lemma PL_flush sh r e r' : PL sh r -> flush sh r e = Some r' -> PL sh r'.
+Proof.
+  intros HP H. unfold flush in H. destruct (r_ph r); [discriminate| |];
+    (destruct e; try discriminate; destruct o; try discriminate;
+     match type of H with (if ?c then _ else _) = _ => destruct c; [|discriminate] end; injection H as <-;
+     unfold PL; cbn; exact HP).
+Qed.
+
+Lemma PL_reps sh I r r1 : Inv sh I r -> PL sh r -> reps sh r = Some r1 -> PL sh r1.
+Proof.
+  intros Hi HP H. unfold reps in H. destruct (r_ph r) as [| [|[b qs] todo] |] eqn:Ep; try discriminate.
+  - destruct (forallb s_done (b_seqs (s_b (r_s r)))); [|discriminate]. injection H as <-.
+    destruct (i_rec _ _ _ Hi _ Ep) as ((b0 & qs0 & rest & _ & [Hpb _] & _) & _).
+    assert (Hnt : is_terminal (ist (s_img (r_s r)) OPlan) = false).
+    { destruct (is_terminal (ist (s_img (r_s r)) OPlan)) eqn:T; [|reflexivity]. destruct (HP T) as [[Q|Q] _]; congruence. }
+    unfold PL, start_recover, take_entry. destruct todo as [|[b1 qs1] rest1]; cbn [r_s s_img]; rewrite Hnt; discriminate.
+  - apply option_map_some in H as (s2 & H & ->). unfold rp_eps in H.
+    destruct (p_eps sh (r_s r)) as [s'|] eqn:Ee; [|discriminate]. injection H as <-.
+    destruct (p_eps_not_ended _ _ _ Ee) as [N1 N2].
+    assert (Hnt : is_terminal (ist (s_img (r_s r)) OPlan) = false).
+    { destruct (is_terminal (ist (s_img (r_s r)) OPlan)) eqn:T; [|reflexivity]. destruct (HP T) as [[Q|Q] _]; contradiction. }
+    destruct (p_eps_spec _ _ _ Ee) as [Ei _].
+    unfold PL. cbn [r_s with_s]. destruct (entered (r_s r) s').
+    + destruct (r_enter_spec sh (mget r) s' (s_cb s')) as (cb' & -> & _). cbn [s_img with_block]. rewrite Ei, Hnt. discriminate.
+    + rewrite Ei, Hnt. discriminate.
+Qed.
+
+Lemma PL_rinit sh im rs r0 : ist im OPlan = Running -> rinit sh im rs = Some r0 -> PL sh r0.
+Proof.
+  intros Hp H. unfold rinit in H. rewrite Hp in H. simpl in H.
+  destruct (negb (resumable_ok (pln_of sh im))); [discriminate|]. injection H as <-.
+  unfold PL, start_recover, take_entry. destruct (group_by_block _) as [|[b qs] rest]; cbn [r_s s_img]; rewrite Hp; discriminate.
+Qed.
+
+(* ------------------------------------------------------------------ every run *)
+Record K2 (sh : shape) (I : dimg) (r : rst) : Prop := { k2_k : K sh I r; k2_w : WAR sh r; k2_pl : PL sh r }.
+
+Theorem K2_run sh I d rs r0 tr r :
+  mem_sound sh I -> repair_sound sh I -> ist I OPlan = Running -> rinit sh I rs = Some r0 -> rrun d sh r0 tr = Some r -> K2 sh I r.
+Proof.
+  intros MS RS Hp Hi. apply rrun_inv.
+  - apply rstep_inv.
+    + intros r1 r2 [[A B C] D E] H. constructor; [constructor; [eapply reps_inv; eauto|eapply M_reps; eauto|eapply GR_reps; eauto]|eapply WAR_reps; eauto|eapply PL_reps; eauto].
+    + intros r1 e r2 [[A B C] D E] H. constructor; [constructor; [exact (proj1 (handle_inv sh I RS d _ _ _ A H))|eapply M_rhandle; eauto|eapply GR_rhandle; eauto]|eapply WAR_rhandle; eauto|eapply PL_rhandle; eauto].
+    + intros r1 e r2 [[A B C] D E] H. constructor; [constructor; [exact (proj1 (flush_inv sh I _ _ _ A H))|eapply M_flush; eauto|eapply GR_flush; eauto]|eapply WAR_flush; eauto|eapply PL_flush; eauto].
+  - constructor; [constructor; [eapply rinit_inv; eauto|eapply M_rinit; eauto|eapply GR_rinit; eauto]|eapply WAR_rinit; eauto|eapply PL_rinit; eauto].
+Qed.
+
+Lemma K2_reps sh I : mem_sound sh I -> repair_sound sh I -> forall r r1, K2 sh I r -> reps sh r = Some r1 -> K2 sh I r1.
+Proof.
+  intros MS RS r r1 [[A B C] D E] H.
+  constructor; [constructor; [eapply reps_inv; eauto|eapply M_reps; eauto|eapply GR_reps; eauto]|eapply WAR_reps; eauto|eapply PL_reps; eauto].
+Qed.
